@@ -60,6 +60,7 @@ def variants(topo, rng, n_perm):
     V.append(("decoy-links-stepped-then-replaced", {"decoy": "links"}))
     V.append(("decoy-attachments-stepped-then-replaced", {"decoy": "attach"}))
     V.append(("turnrates-rescaled-after-a-step", {"rescale_after_step": 2.5}))
+    V.append(("turnrates-as-one-element-arrays", {"beta_arrays": True}))
     V.append(("renamed", {"rename": lambda s: "zz_" + s[::-1] + "_" + str(len(s))}))
     V.append(("turnrates-scaled", {"scale": True}))
     return V
@@ -196,6 +197,9 @@ def work(item):
             X = runs.sym_inputs(topo, style)
             _, nA = runs.step_numpy(topo, P, X)
             P2 = scaled_params(topo, runs.sym_params(topo), lambda c, b: S.var(c) * b) if var.get("scale") else runs.sym_params(topo)
+            if var.get("beta_arrays"):
+                # what engine.var / a user array gives: a (1,) array per turn rate (same values)
+                P2 = {k: (symx.SymArray.of([v]) if k.startswith("beta_") else v) for k, v in P2.items()}
             built = build_variant(topo, P2, var)
             ic = runs.init_conditions(built, runs.sym_inputs(topo, style))
             built.net.step(init_conditions=ic, engine=runs.numpy_engine(), **runs.NOFLAGS, **T_.model_kwargs(topo, P2))
@@ -294,6 +298,9 @@ def replay_variant(topo, style, eng, env, key, i, label, seed, n_perm, numeric, 
     if eng == "numpy":
         ra, ea = numrun.numpy_float(topo, env, style)
         P = numrun.float_params(topo, env2)
+        if var.get("beta_arrays"):
+            import numpy as _np
+            P = {k: (_np.array([v]) if k.startswith("beta_") else v) for k, v in P.items()}
         try:
             built = build_variant(topo, P, var)
             built.net.step(init_conditions=runs.init_conditions(built, runs.float_inputs(topo, env2, style)), engine=runs.numpy_engine(),
